@@ -8,7 +8,7 @@ open Py
 
 theorem frame_setChan (s : Srv) (key : Str) (b : Bot) (ch : Chan) :
     Frame s key b { b with channels := aset b.channels key ch } :=
-  ⟨rfl, rfl, rfl, rfl, fun _ hk => aget_aset_ne _ _ (Ne.symm hk), fun _ => Or.inl rfl⟩
+  ⟨rfl, rfl, rfl, rfl, rfl, fun _ hk => aget_aset_ne _ _ (Ne.symm hk), fun _ => Or.inl rfl⟩
 
 /-- what `enter` does, in one statement -/
 theorem enter_spec {s s1 : Srv} {k c name : Str} (he : s.enter k c = some (s1, name)) :
